@@ -235,11 +235,7 @@ CONTRACTS.update({
             # the user-supplied evaluation: an arbitrary function (result unconstrained, may raise anything)
             'self._evaluate': dict(params=['dsg', 'metric_nodes'], types={}, returns='Dict[Ref,Real]', modifies=[],
                                    assumed=False),
-            'dsg.set_metric_value': dict(
-                params=['metric_node', 'value'], types={'value': 'Real'}, returns=None, receiver='dsg',
-                modifies=['dsg._metric_values'],
-                ensures=['dsg._metric_values[metric_node] == value and metric_node in dsg._metric_values',
-                         "forall('x:Ref', implies(x != metric_node, (x in dsg._metric_values) == (x in old(dsg._metric_values)) and dsg._metric_values[x] == old(dsg._metric_values)[x]))"]),
+            'dsg.set_metric_value': 'adsg_core/graph/adsg.py:DSG.set_metric_value',
         },
         loops={'for metric_node in metric_nodes': dict(index='k', invariant={
             'stored-so-far': 'forall(j, 0, k, metric_nodes[j] in dsg._metric_values and dsg._metric_values[metric_nodes[j]] == ite(metric_nodes[j] in value_map, value_map[metric_nodes[j]], math.nan))',
